@@ -12,6 +12,7 @@ import Matreex.Lemmas.Matrix
 import Matreex.Lemmas.Views
 import Matreex.Props.C03
 import Matreex.Gen.OrderDispatch
+import Matreex.Lemmas.BridgeViews
 
 namespace Matreex.C06
 open Matreex
@@ -147,6 +148,29 @@ theorem outer_counts_agree (m : Matrix α) (h : m.Coh) (hfit : m.data.size ≤ u
   obtain ⟨rows, r1, r2, _⟩ := iterRows_spec m h hfit hext
   obtain ⟨cols, c1, c2, _⟩ := iterCols_spec m h hfit hext
   exact ⟨⟨rows, r1, by simpa [C03.nVectors] using r2⟩, ⟨cols, c1, by simpa [C03.nVectors] using c2⟩⟩
+
+/-- Tie T2 (regenerated from src/iter.rs on every run): the model's row / column views ARE the
+source's `iter().skip(skip).step_by(step).take(take)` chains — the parameters (`n · major_stride`,
+`minor_stride`, `minor` along the major axis; `n · minor_stride`, `major_stride`, `major` along the
+minor axis), the `IndexOutOfBounds` guards `n >= extent` of the checked wrappers, and the `_mut`
+functions using the same parameters and guards as the shared ones -/
+theorem views_are_the_source_chains (m : Matrix α) (n : Nat) :
+    m.nthMajorUnchecked n = BridgeViews.viaParams m.data.toList (Gen.Matrix.iter_nth_major_axis_vector_unchecked m.hdr n) ∧
+    m.nthMinorUnchecked n = BridgeViews.viaParams m.data.toList (Gen.Matrix.iter_nth_minor_axis_vector_unchecked m.hdr n) ∧
+    Gen.Matrix.iter_nth_major_axis_vector_unchecked_mut m.hdr n = Gen.Matrix.iter_nth_major_axis_vector_unchecked m.hdr n ∧
+    Gen.Matrix.iter_nth_minor_axis_vector_unchecked_mut m.hdr n = Gen.Matrix.iter_nth_minor_axis_vector_unchecked m.hdr n ∧
+    Gen.Matrix.iter_nth_major_axis_vector_mut m.hdr n = Gen.Matrix.iter_nth_major_axis_vector m.hdr n ∧
+    Gen.Matrix.iter_nth_minor_axis_vector_mut m.hdr n = Gen.Matrix.iter_nth_minor_axis_vector m.hdr n ∧
+    (Gen.Matrix.iter_nth_major_axis_vector m.hdr n =
+      if n ≥ m.shape.major then .ok (.error .indexOutOfBounds)
+      else (Gen.Matrix.iter_nth_major_axis_vector_unchecked m.hdr n).map .ok) ∧
+    (Gen.Matrix.iter_nth_minor_axis_vector m.hdr n =
+      if n ≥ m.shape.minor then .ok (.error .indexOutOfBounds)
+      else (Gen.Matrix.iter_nth_minor_axis_vector_unchecked m.hdr n).map .ok) :=
+  ⟨BridgeViews.nthMajorUnchecked_params m n, BridgeViews.nthMinorUnchecked_params m n,
+    (BridgeViews.mut_params_agree m.hdr n).1, (BridgeViews.mut_params_agree m.hdr n).2,
+    (BridgeViews.guarded_mut_agree m.hdr n).1, (BridgeViews.guarded_mut_agree m.hdr n).2,
+    BridgeViews.guarded_major m.hdr n, BridgeViews.guarded_minor m.hdr n⟩
 
 /-- Tie T1 (re-extracted from src/iter.rs on every run): every row function uses the major axis of a
 row-major and the minor axis of a column-major matrix, every column function the other way round,
